@@ -26,7 +26,9 @@ RULE = ("(runner) markets configured with marketPrice, fundamentalPrice or both 
         "20k-50k log-returns per case, in half of the cases measured AFTER a mid-run change of a volatility, drift or correlation (at t = 100..1000): sample mean within 6 vol/sqrt(N) of drift, sample std within 6 vol/sqrt(2N) of vol, "
         "sample correlation within 6(1-rho^2)/sqrt(N) of rho. (probe) the normal source is replaced by cyclic unit vectors so "
         "the returns expose the mixing matrix A: A A^T must equal vol*corr*vol (rel 1e-9) and the mean must equal the drift.")
-ASSUMPTIONS = ["a change or shock is applied at a time t <= the largest time generated since the last change (every caller in pams respects this)",
+ASSUMPTIONS = ["late-starting markets (add_market(start_at=k), used by no pams caller) are generated only next to at least one registered market that runs from time 0; a Fundamentals holding nothing but late starters cannot be read before their start (np.stack of an empty list) -- outside what the property describes, not judged",
+               "remove_market is judged only through its effect on the remaining markets (their returned history must stay and deterministic paths must continue)",
+               "a change or shock is applied at a time t <= the largest time generated since the last change (every caller in pams respects this)",
                "the probe part substitutes Fundamentals._np_prng; if that attribute is absent the part reports itself skipped"]
 
 
@@ -91,12 +93,19 @@ def machine_cases(draw, tier):
     markets = draw(market_params(n))
     volm = [i for i, m in enumerate(markets) if m["vol"] > 0]
     corr = draw(corr_matrix(len(volm))) if len(volm) >= 2 and draw(st.booleans()) else None
+    if n >= 2 and draw(st.integers(0, 2)) == 0:
+        # a market that joins later (add_market's documented start_at): constant at its initial value until then
+        for m in markets[1:]:
+            if draw(st.booleans()):
+                m["start_at"] = draw(st.sampled_from([1, 3, 50, 100, 150]))
     n_ops = draw(st.integers(3, 25))
     ops = []
     for _ in range(n_ops):
-        kind = draw(st.sampled_from(["read"] * 4 + ["adv"] * 3 + ["drift", "vol", "shock", "shock", "corr", "uncorr"]))
+        kind = draw(st.sampled_from(["read"] * 4 + ["adv"] * 3 + ["drift", "vol", "shock", "shock", "corr", "uncorr", "remove"]))
         i = draw(st.integers(0, n - 1))
-        if kind == "read":
+        if kind == "remove":
+            ops.append(["remove", i])
+        elif kind == "read":
             ds = draw(st.lists(st.sampled_from([-120, -30, -3, -1, 0, 1, 2, 5, 60, 99, 100, 101, 130]), min_size=1, max_size=4))
             ops.append(["read", i, ds, draw(st.booleans())])
         elif kind == "adv":
@@ -125,7 +134,7 @@ def build(case, with_markets=False):
     else:
         f = Fundamentals(prng=random.Random(case["seed"]))
     for i, m in enumerate(case["markets"]):
-        _call(f.add_market, market_id=i, initial=m["initial"], drift=m["drift"], volatility=m["vol"])
+        _call(f.add_market, market_id=i, initial=m["initial"], drift=m["drift"], volatility=m["vol"], **({"start_at": m["start_at"]} if m.get("start_at") else {}))
         if sim is not None:
             mk = Market(market_id=i, prng=random.Random(i), simulator=sim, name=f"M{i}")
             mk.setup({"tickSize": 1.0, "marketPrice": m["initial"]})
@@ -163,14 +172,19 @@ def machine_check(case):
     vols = [m["vol"] for m in case["markets"]]
     drifts = [m["drift"] for m in case["markets"]]
     # closed-form segments per market: (t0, level at t0, drift from t0 on), ordered by t0
-    segs = {i: [(0, case["markets"][i]["initial"], drifts[i])] for i in range(n)}
+    sa = [m.get("start_at", 0) for m in case["markets"]]
+    alive = [True] * n
+    segs = {i: [(sa[i], case["markets"][i]["initial"], drifts[i])] for i in range(n)}
     ever_vol = [v > 0 for v in vols]
     shocked0 = set()
     flags = set()
     corr_now = dict(pairs)
 
     def closed(i, t):
-        t0, lvl, dr = [sg for sg in segs[i] if sg[0] <= t][-1]
+        before = [sg for sg in segs[i] if sg[0] <= t]
+        if not before:
+            return case["markets"][i]["initial"]  # a market that has not started yet stays at its initial value
+        t0, lvl, dr = before[-1]
         return lvl * math.exp(dr * (t - t0))
 
     def new_segment(i, t, lvl, dr):
@@ -192,6 +206,19 @@ def machine_check(case):
 
     for op in case["ops"]:
         kind, i = op[0], op[1]
+        if not alive[i]:
+            continue
+        if kind == "remove":
+            if sum(alive) < 2 or not any(alive[j] and sa[j] == 0 and j != i for j in range(n)):
+                continue  # (at least one market that runs from time 0 stays registered: see ASSUMPTIONS)
+            # taking a market out is not a change of the others: what they returned so far stays, and they go on as before
+            _call(f.remove_market, market_id=i)
+            alive[i] = False
+            vols[i] = 0.0
+            for key in [k for k in mem if k[0] == i]:
+                del mem[key]
+            flags.add("remove")
+            continue
         if kind == "read":
             ts = sorted({min(max(maxt + d, 0), case["max_time"]) for d in op[2]}) if op[3] else [min(max(maxt + d, 0), case["max_time"]) for d in op[2]]
             vals = _call(f.get_fundamental_prices, market_id=i, times=ts) if op[3] else [_call(f.get_fundamental_price, market_id=i, time=t) for t in ts]
@@ -204,6 +231,8 @@ def machine_check(case):
                 if (i, t) in mem and mem[(i, t)] != v:
                     raise Violation("C12.history_changed", f"market {i} time {t}: was {mem[(i, t)]!r}, now {v!r}")
                 mem[(i, t)] = v
+                if t < sa[i] and v != case["markets"][i]["initial"]:
+                    raise Violation("C12.initial_value", f"market {i} starts at {sa[i]} but its price at time {t} is {v!r}, configured initial {case['markets'][i]['initial']!r}")
                 if t == 0 and i not in shocked0 and v != case["markets"][i]["initial"]:
                     raise Violation("C12.initial_value", f"market {i}: price(0) = {v!r}, configured {case['markets'][i]['initial']!r}")
                 if deterministic(i):
@@ -213,15 +242,19 @@ def machine_check(case):
             continue
         if kind == "adv":
             for _ in range(min(op[2], case["max_time"] - T)):
-                _call(sim._update_times_on_markets, sim.markets)
+                _call(sim._update_times_on_markets, [mk for j, mk in enumerate(sim.markets) if alive[j]])
                 T += 1
                 for j, mk in enumerate(sim.markets):
+                    if not alive[j]:
+                        continue
                     v = mk.get_fundamental_price(T)
                     if not (v > 0 and math.isfinite(v)):
                         raise Violation("C12.positive_finite", f"market {j} time {T}: {v!r}")
                     if (j, T) in mem and mem[(j, T)] != v:
                         raise Violation("C12.history_changed", f"market {j} time {T}: a read ahead returned {mem[(j, T)]!r}, the clock advance recorded {v!r}")
                     mem[(j, T)] = v
+                    if T < sa[j] and v != case["markets"][j]["initial"]:
+                        raise Violation("C12.initial_value", f"market {j} starts at {sa[j]} but its price recorded at time {T} is {v!r}")
                     if deterministic(j) and not math.isclose(v, closed(j, T), rel_tol=1e-9):
                         raise Violation("C12.closed_form", f"market {j} time {T}: {v!r}, expected {closed(j, T)!r} (segments {segs[j]})")
             maxt = max(maxt, T)
@@ -232,11 +265,12 @@ def machine_check(case):
         # parameter changes and shocks happen at the current time of the markets (what events do)
         t = T
         if kind == "drift":
-            lvl = closed(i, t) if deterministic(i) else None
+            te = max(t, sa[i])
+            lvl = closed(i, te) if deterministic(i) else None
             _call(f.change_drift, market_id=i, drift=op[2], time=t)
             drifts[i] = op[2]
             if lvl is not None:
-                new_segment(i, t, lvl, op[2])
+                new_segment(i, te, lvl, op[2])
         elif kind == "vol":
             newv = op[2]
             trial = list(vols)
@@ -249,7 +283,7 @@ def machine_check(case):
                 ever_vol[i] = True
         elif kind == "corr":
             j = op[2]
-            if i == j or vols[i] == 0 or vols[j] == 0:
+            if i == j or vols[i] == 0 or vols[j] == 0 or not alive[j]:
                 continue
             key = (j, i) if (j, i) in corr_now else (i, j)
             trial = dict(corr_now)
@@ -262,7 +296,7 @@ def machine_check(case):
         elif kind == "uncorr":
             j = op[2]
             key = (j, i) if (j, i) in corr_now else (i, j)
-            if i == j or key not in corr_now:
+            if i == j or key not in corr_now or not alive[j]:
                 continue
             trial = dict(corr_now)
             del trial[key]
@@ -272,11 +306,13 @@ def machine_check(case):
             corr_now = trial
         elif kind == "shock":
             # the real thing: Market.change_fundamental_price at the market's current time
+            if t < sa[i]:
+                continue  # a price that has not started yet is not shocked
             mk = sim.markets[i]
             cur = mk.get_fundamental_price(t)
             if (i, t) in mem and mem[(i, t)] != cur:
                 raise Violation("C12.history_changed", f"market {i} time {t}: was {mem[(i, t)]!r}, now {cur!r}")
-            before = {(j, u): f.get_fundamental_price(j, u) for j in range(n) for u in range(max(0, t - 3), t + 1) if (j, u) != (i, t)}
+            before = {(j, u): f.get_fundamental_price(j, u) for j in range(n) if alive[j] for u in range(max(0, t - 3), t + 1) if (j, u) != (i, t)}
             _call(mk.change_fundamental_price, scale=op[2])
             new = cur * op[2]
             got = mk.get_fundamental_price(t)
@@ -296,12 +332,13 @@ def machine_check(case):
         for key in [k for k in mem if k[1] > t]:
             del mem[key]
         for j in range(n):
-            if deterministic(j):
-                lvl_j = closed(j, t)
-                segs[j] = [sg for sg in segs[j] if sg[0] <= t]
+            if deterministic(j) and alive[j]:
+                te = max(t, sa[j])
+                lvl_j = closed(j, te)
+                segs[j] = [sg for sg in segs[j] if sg[0] <= te]
                 if segs[j][-1][2] != drifts[j]:
                     # regeneration from t uses the parameters in force now
-                    new_segment(j, t, lvl_j, drifts[j])
+                    new_segment(j, te, lvl_j, drifts[j])
         if t >= 100:
             flags.add("change_after_chunk")
         maxt = t
@@ -523,7 +560,7 @@ def runner_check(case):
 
 PARTS = {
     "runner": {"check": runner_check, "strategy": runner_cases, "budget": {"quick": 300, "thorough": 6000}},
-    "machine": {"check": machine_check, "strategy": machine_cases, "budget": {"quick": 800, "thorough": 12000}},
+    "machine": {"check": machine_check, "strategy": machine_cases, "budget": {"quick": 3000, "thorough": 40000}},
     "stats": {"check": stats_check, "strategy": stats_cases, "budget": {"quick": 96, "thorough": 960}},
     "probe": {"check": probe_check, "strategy": probe_cases, "budget": {"quick": 400, "thorough": 6000}},
 }
